@@ -290,3 +290,78 @@ def ceval(e, env):
                     r = (r + 2 ** 31) % 2 ** 32 - 2 ** 31
             return r
     raise NotEvaluable(estr(e))
+
+
+def run_concrete(func, env, max_steps=2000):
+    """execute `func` on the concrete environment env (scalars: numbers; arrays: python lists, modified in place) by walking its
+    flow graph: branch nodes are evaluated with ceval, expression / declaration nodes executed (scalar and array-cell assignments,
+    compound assignments, ++ / --).  Returns ('return', value or None) or ('exit', None).  Raises NotEvaluable for anything else
+    (calls with effects, pointer arithmetic, ...).  For small-model case analysis of short helper functions."""
+    cfg = func.cfg
+
+    def store(t, v):
+        while t.k == "cast":
+            t = t.a[0]
+        if t.k == "var":
+            env[t.name] = v
+            return
+        if t.k == "idx":
+            b_ = t.a[0]
+            while b_.k == "cast":
+                b_ = b_.a[0]
+            if b_.k == "var" and isinstance(env.get(b_.name), list):
+                k_ = ceval(t.a[1], env)
+                if not (isinstance(k_, int) and 0 <= k_ < len(env[b_.name])):
+                    raise NotEvaluable("store outside the model array %s[%s]" % (b_.name, k_))
+                env[b_.name][k_] = v
+                return
+        raise NotEvaluable("store target %s" % estr(t))
+
+    def ex(e):
+        while e.k == "cast":
+            e = e.a[0]
+        if e.k == "asg":
+            v = ceval(e.a[1], env) if e.a[1].k != "asg" else ex(e.a[1])
+            if e.op == "=":
+                store(e.a[0], v)
+                return v
+            cur = ceval(e.a[0], env)
+            if e.op in ("+=", "-=", "*="):
+                nv = cur + v if e.op == "+=" else (cur - v if e.op == "-=" else cur * v)
+                store(e.a[0], nv)
+                return nv
+            raise NotEvaluable(estr(e))
+        if e.k == "incdec":
+            cur = ceval(e.a[0], env)
+            store(e.a[0], cur + (1 if e.op in ("++", "post++", "pre++") or "+" in e.op else -1))
+            return cur
+        if e.k == "comma" or (e.k == "bin" and e.op == ","):
+            r_ = None
+            for a in e.a:
+                r_ = ex(a)
+            return r_
+        return ceval(e, env)
+    nid = cfg.entry.id
+    for _ in range(max_steps):
+        n = cfg.nodes[nid]
+        succ = list(cfg.g.successors(nid))
+        if n.k == "cond":
+            v = bool(ceval(n.e, env))
+            succ = [s_ for s_ in succ if cfg.nodes[s_].k == "assume" and cfg.nodes[s_].pol == v]
+        elif n.k == "expr" and n.e is not None:
+            ex(n.e)
+        elif n.k == "decl":
+            if n.e is not None and n.s is not None and getattr(n.s, "var", None) is not None:
+                env[n.s.var.name] = ex(n.e)
+        elif n.k == "return":
+            return ("return", ex(n.e) if n.e is not None else None)
+        elif nid == cfg.exit.id:
+            return ("exit", None)
+        elif n.k not in ("entry", "assume", "join"):
+            raise NotEvaluable("statement kind %s" % n.k)
+        if not succ:
+            return ("exit", None)
+        if len(succ) != 1:
+            raise NotEvaluable("%d successors after %r" % (len(succ), n))
+        nid = succ[0]
+    raise NotEvaluable("no exit within %d steps" % max_steps)
